@@ -1,0 +1,7 @@
+//go:build !verif
+
+package s3db
+
+import "github.com/jrhy/s3db/kv"
+
+func verifWrapS3(c kv.S3Interface, _ S3Options) kv.S3Interface { return c }
